@@ -12,7 +12,7 @@
    RTI, and unchanged for every other instruction; taking an interrupt adds one. *)
 From Coq Require Import ZArith List Bool.
 From Model Require Import Bits Word Instr Sim.
-From Proofs Require Import SimAccess SimFrames IrqProofs SimStepObs SimStepFrames SimFrameList SimStepFrames2.
+From Proofs Require Import SimAccess SimFrames IrqProofs SimStepObs SimStepFrames SimFrameList SimStepFrames2 SimObsEntry SimEntryFrame.
 Import ListNotations.
 Open Scope Z_scope.
 
@@ -123,6 +123,36 @@ Theorem C27_call_target_def : forall s o,
   jsr_target s o = match o with Imm off => wrap16 (wrap16 (s_pc s + 1) + off) | RegOp br => w_data (rget (s_regs s) br) end.
 Proof. reflexivity. Qed.
 Print Assumptions C27_call_target_def.
+(* ... and of an interrupt: a step that takes an interrupt (stack slots in ordinary memory) records the address of
+   the interrupted instruction, the vector x100+v and kind Interrupt; the general form for trap / exception entry
+   is [entry_frame] (caller = the trapping instruction's address, [prefetch_pc]) *)
+Theorem C27_step_interrupt_frame : forall e s s' u v p fs,
+  List.length (s_regs s) = 8%nat -> takes_irq e s v p ->
+  step_inner e (upd_obs s []) = (s', inl u) ->
+  let a1 := wrap16 (entry_sp s - 1) in let a2 := wrap16 (entry_sp s - 2) in
+  (IO_START <=? a1) = false -> (IO_START <=? a2) = false ->
+  0 <= s_pc s < 65536 -> s_frames s = Some fs ->
+  exists top, s_frames s' = Some (top :: fs) /\
+    f_caller top = s_pc s /\ f_callee top = 256 + v /\ f_type top = FInterrupt.
+Proof. exact step_interrupt_frame. Qed.
+Print Assumptions C27_step_interrupt_frame.
+Theorem C27_entry_frame : forall e v ft psr_f s s' u fs,
+  entry_body e v ft psr_f s s = (s', inl u) ->
+  let a1 := wrap16 (entry_sp s - 1) in let a2 := wrap16 (entry_sp s - 2) in
+  List.length (s_regs s) = 8%nat -> (IO_START <=? a1) = false -> (IO_START <=? a2) = false ->
+  s_frames s = Some fs ->
+  exists top, s_frames s' = Some (top :: fs) /\
+    f_caller top = prefetch_pc s /\ f_callee top = v /\ f_type top = ft.
+Proof. exact entry_frame. Qed.
+Print Assumptions C27_entry_frame.
+(* [entry_body] is the common part of handle_interrupt after the priority gate / the virtual short-cut *)
+Theorem C27_entry_body_is_handle_interrupt : forall e v s,
+  (forall p, psr_priority (s_psr s) < p ->
+     handle_interrupt e v (Some p) s = entry_body e v FInterrupt (fun x => psr_set_priority (psr_set_cc x 2) p) s s) /\
+  ((if fl_real (s_flags s) then None else real_int_vect v) = None ->
+     handle_interrupt e v None s = entry_body e v FTrap (fun x => psr_set_cc x 2) s s).
+Proof. intros e v s. split; [intros p H; exact (handle_interrupt_some_is_entry e v p s H)|exact (handle_interrupt_none_is_entry e v s)]. Qed.
+Print Assumptions C27_entry_body_is_handle_interrupt.
 (* second sentence: with debug frames on, the frame list has exactly as many entries as the reported depth —
    an invariant of [step_in] on EVERY path (completed steps, every error, interrupts, traps, exceptions vectored
    under real traps, strict-mode failures in the middle of an entry), hence of every run from a state that has it
